@@ -3,6 +3,8 @@
 //! Nothing here knows the ESRI layout: the harness drives the public API, records
 //! what it observed (bytes, values abstracted to ids, results) as ndjson, and TLC
 //! decides.  The only float-aware pieces are `values::Conc` (id <-> f64 bits).
+pub mod alloc;
+pub mod cmd_arbitrary;
 pub mod cmd_codec;
 pub mod cmd_complete;
 pub mod cmd_rings;
